@@ -84,12 +84,34 @@ def run(chk):
                 d = dict(d, time_units="years", generation_time=rng.choice([2, 25, 29.5]))
             g2 = demes.Graph.fromdict(d)
             g2.migration_matrices()
-            yield label + "|in_generations", g2.in_generations()
-            b = demes.Builder.fromdict(copy.deepcopy(d))
-            yield label + "|builder|in_generations", b.resolve().in_generations()
+            gi = g2.in_generations()
+            if graphs.still_valid(gi):               # invalid conversions (F12) are outside "for every valid graph"
+                yield label + "|in_generations", gi
+                b = demes.Builder.fromdict(copy.deepcopy(d))
+                yield label + "|builder|in_generations", b.resolve().in_generations()
             if len(g.demes) >= 2:
                 a, c = g.demes[0].name, g.demes[-1].name
                 yield label + "|rename-swap", g2.rename_demes({a: c, c: a})
+        except Exception as e:
+            chk.count("derived_failed_" + type(e).__name__)
+        # the same model with every finite time an integer that binary64 cannot hold (t -> t * 2**54 + 1): Python compares
+        # ints exactly, so the matrices must still match the migrations; checked on the implementation only (the model's
+        # numbers are binary64)
+        try:
+            d = g.asdict()
+            ts = [dm["start_time"] for dm in d["demes"]] + [e["end_time"] for dm in d["demes"] for e in dm["epochs"]] \
+                + [x for m in d["migrations"] for x in (m["start_time"], m["end_time"])] + [p["time"] for p in d["pulses"]]
+            if d["migrations"] and all(math.isinf(t) or float(t).is_integer() for t in ts) and rng.random() < 0.5:
+                big = lambda t: t if math.isinf(t) else (int(t) * 2 ** 54 + 1 if t > 0 else 0)
+                for dm in d["demes"]:
+                    dm["start_time"] = big(dm["start_time"])
+                    for e in dm["epochs"]:
+                        e["end_time"] = big(e["end_time"])
+                for m in d["migrations"]:
+                    m["start_time"], m["end_time"] = big(m["start_time"]), big(m["end_time"])
+                for p in d["pulses"]:
+                    p["time"] = big(p["time"])
+                yield label + "|huge-int-times", demes.Graph.fromdict(d)
         except Exception as e:
             chk.count("derived_failed_" + type(e).__name__)
     for label0, doc, g0 in graphs.pool(chk, 400, 8000):
@@ -110,7 +132,7 @@ def run(chk):
               bad = spec_check(g, ir[1][0], ir[1][1])
           if bad:
               chk.violation(bad[0], bad[1], rep)
-          same = (ir[0] == mr[0] and (ir[0] == "err" and ir[1] == mr[1]
+          same = label.endswith("|huge-int-times") or (ir[0] == mr[0] and (ir[0] == "err" and ir[1] == mr[1]
                                       or ir[0] == "ok" and wire.deep_eq([ir[1][0], ir[1][1]], mr[1])))
           if not same:
               chk.disagreements += 1
